@@ -432,6 +432,17 @@ class TaskUtils:
             raise RuntimeError(f"{running_loop=!r} is not {loop=!r}")
 
     @staticmethod
+    def current_task_is_polling(loop: asyncio.AbstractEventLoop | None = None) -> bool:
+        """
+        Returns True if the current task is within a cancel scope which is cancelled, but no cancellation has been requested yet.
+        i.e. the scope was already cancelled when the task got there, for instance ``with backend.timeout(0):``.
+        """
+        task = TaskUtils.current_asyncio_task(loop)
+        if task.cancelling() > 0:
+            return False
+        return any(scope.cancel_called() for scope in CancelScope._inner_to_outer_task_scopes(task))
+
+    @staticmethod
     def current_asyncio_task(loop: asyncio.AbstractEventLoop | None = None) -> asyncio.Task[Any]:
         t: asyncio.Task[Any] | None = asyncio.current_task(loop=loop)
         if t is None:
